@@ -54,8 +54,8 @@ def _handle(R, val, what):
         else:
             d = V.save_replay(R.prop, "deviation %s taken but not listed in KNOWN_FINDINGS.txt" % key, [], [], None)
             R.violations.append(("unlisted deviation " + key, d))
-    for fp, line_no, res in val["rejections"][:5]:
-        seg, rest = _minimal_segment(fp, line_no)
+    segs = sorted(((_minimal_segment(fp, line_no), res) for fp, line_no, res in val["rejections"]), key=lambda x: len(x[0][0]))
+    for (seg, rest), res in segs[:5]:      # shortest histories first
         d = V.save_replay(R.prop, what, seg, rest, res,
                           extra="segment.ndjson is minimised: the Reset line, the chain of operations leading to the pre-state, and the rejected line (last).")
         last = json.loads(seg[-1]) if seg else {}
@@ -64,12 +64,14 @@ def _handle(R, val, what):
         R.violations.append(("%s: history %s, rejected line %s" % (what, hist, brief), d))
 
 
-def _validate(sc, files, cfg, parallel=8):
+def _validate(sc, files, cfg, tier="quick"):
     """Like V.validate_traces but one TLC per trace file (the driver already balances 16+4 files; splitting
     them further only multiplies JVM start-ups) and with the JVM's GC threads capped: the machine is shared."""
     import concurrent.futures
     import time
-    jopts = {"JAVA_TOOL_OPTIONS": "-XX:ParallelGCThreads=2"}
+    # memory budget: quick 6 x 1g (trace files ~2 MB each), thorough 8 x 2g (~10 MB each)
+    parallel, heap = (6, "1g") if tier == "quick" else (8, "2g")
+    jopts = {"JAVA_TOOL_OPTIONS": "-Xmx%s -XX:ParallelGCThreads=2" % heap}
     rej, kf, states = [], set(), 0
 
     def one(fp):
@@ -92,7 +94,7 @@ def _validate(sc, files, cfg, parallel=8):
 
 
 def _expect_counterexample(sc, R, cfg, inv):
-    res = V.run_tlc(sc, SPEC, "IndexedStoreMC.tla", cfg, workers=4, timeout=600)
+    res = V.run_tlc(sc, SPEC, "IndexedStoreMC.tla", cfg, workers=1, timeout=600)
     if res["violated"] != inv:
         raise V.Broken("model %s: expected a counterexample to %s for the pinned code variant, got %r (invariant vacuous?)"
                        % (cfg, inv, res["violated"]))
@@ -104,7 +106,7 @@ def run(sc, tier, seed):
     R = V.Result("C15", tier, seed)
     # design level: Impl => Ref and the invariants over every reachable store content
     cfg = "IndexedStore_quick.cfg" if tier == "quick" else "IndexedStore_thorough.cfg"
-    R.add_model(V.model_check(sc, SPEC, "IndexedStoreMC.tla", cfg, timeout=1500))
+    R.add_model(V.model_check(sc, SPEC, "IndexedStoreMC.tla", cfg, workers=8, timeout=1500))
     # the same model with the two pre-fix code variants must violate the invariants (non-vacuity)
     pinned = {
         "path.Join index keys (JoinCollapse)": _expect_counterexample(sc, R, "IndexedStore_pinned_join.cfg", "Bijection"),
@@ -113,17 +115,23 @@ def run(sc, tier, seed):
     # B1: history trees + random histories on the real store
     out, meta = V.run_driver(sc, "c15", tier, seed, timeout=2400)
     R.add_meta(meta)
-    R.samples = [[{k: v for k, v in ev.items() if k not in ("grid", "gridb", "glob")} for ev in s] for s in R.samples[:2]]
+    # samples: the scripted sample history and the start of the first tree, without the bulky grids
+    def slim(ev):
+        ev = {k: v for k, v in ev.items() if k not in ("grid", "gridb", "glob")}
+        if len(ev.get("full") or []) > 8:
+            ev["full"] = "<%d list results>" % len(ev["full"])
+        return ev
+    R.samples = [[slim(ev) for ev in s[:8]] for s in R.samples[:2]]
     files = [f for f in meta["trace_files"] if os.path.getsize(f) > 0]
     # One pass validates both levels at once (CheckImpl = TRUE: Ref observations AND the code-shaped layer:
     # write counts, FailAt effect, raw key dump, Impl invariants).  Only a file it rejects is re-validated at
     # verdict level alone: rejected there -> violation; accepted there -> the code drifted from the Impl model.
-    both = _validate(sc, files, "IndexedStoreTraceImpl.cfg")
+    both = _validate(sc, files, "IndexedStoreTraceImpl.cfg", tier)
     R.states += both["states"]
     drift = []
     if not both["accepted"]:
         bad = [fp for fp, _, _ in both["rejections"]]
-        val = _validate(sc, bad, "IndexedStoreTrace.cfg")
+        val = _validate(sc, bad, "IndexedStoreTrace.cfg", tier)
         _handle(R, val, "observations of the real IndexedStore are not those the operation history promises")
         verdict_bad = set(fp for fp, _, _ in val["rejections"])
         for fp, line_no, res in both["rejections"]:
@@ -143,7 +151,7 @@ def run(sc, tier, seed):
 
 def replay(sc, path):
     seg = os.path.join(path, "segment.ndjson")
-    val = V.validate_traces(sc, SPEC, "IndexedStoreTraceMC.tla", "IndexedStoreTrace.cfg", [seg])
+    val = _validate(sc, [seg], "IndexedStoreTrace.cfg")
     if val["accepted"]:
         print("replay: segment is accepted by the current specification")
         return 0
